@@ -371,3 +371,20 @@ func (e StringerEntry) ReturnsError() bool {
 func (e StringerEntry) ObjNullable() bool {
 	return e.inner.ObjNullable()
 }
+
+// CallsStringOnPointer reports whether the node's expression calls String() on a
+// pointer that can be nil at runtime, and returns the expression of that pointer.
+func CallsStringOnPointer(node Node) (ptrExpr string, ok bool) {
+	switch n := node.(type) {
+	case StringerEntry:
+		if n.inner.ObjNullable() {
+			return n.inner.NullCheckExpr(), true
+		}
+		return CallsStringOnPointer(n.inner)
+	case TypecastEntry:
+		return CallsStringOnPointer(n.inner)
+	case ConverterNode:
+		return CallsStringOnPointer(n.arg)
+	}
+	return "", false
+}
